@@ -182,7 +182,7 @@ def gen(rng, broker, tier):
                                                                     "frag_p": rng.choice([0, 0.5]), "max_seg": rng.choice([1 << 30, 64])}}}
     sc = {"mode": "roundtrip", "name": _name(rng), "queue": _name(rng), "id": rng.choice([None, _id(rng), _id(rng)]),
           "prio": rng.choice([0, 5, 9]), "args": {"v": _rand_value(rng), "w": _rand_value(rng)} if rng.random() < 0.85 else None,
-          "conv": rng.choice(["basic", "pydantic"]),
+          "conv": rng.choice(["basic", "pydantic"]), "decoy": rng.choice([None, None, "_x", "-2", "0", "a"]),
           "use_bucket": rng.choice([None, True, False]) if broker != "rabbit" or True else False,
           "buckets": rng.choice(["mem", "mem", "redis"]) if broker == "redis" else "mem",
           "knobs": {"step_cost": rng.choice([0, 1]), "net": {"lat_lo": 50, "lat_hi": rng.choice([300, 3000]),
@@ -248,6 +248,10 @@ async def _roundtrip(sim, sc, out):
         kw["use_args_bucketer"] = sc["use_bucket"]
     args = None if sc["args"] is None else {k: _materialise(v) for k, v in sc["args"].items()}
     await sim.loop.spawn("p", r.Queue(sc["queue"], _connection=connp).declare())
+    if sc.get("decoy"):
+        dj = r.Job(sc["name"] + sc["decoy"], queue=sc["queue"], priority=r.PrioritiesT(sc["prio"]), args={"decoy": True},
+                   _connection=connp)
+        await sim.loop.spawn("p", dj.enqueue())
     job = r.Job(sc["name"], queue=sc["queue"], priority=r.PrioritiesT(sc["prio"]), id_=sc["id"], args=args, _connection=connp, **kw)
     key, payload, params = await sim.loop.spawn("p", job.enqueue())
     delayed = params.delay.delay_until is not None or params.delay.defer_by is not None
@@ -257,7 +261,12 @@ async def _roundtrip(sim, sc, out):
         cat = r.MessageCategory.DELAYED
         future = True
     mb = connw.message_broker
-    cons = mb.get_consumer(sc["queue"], None, None, cat)
+    topics = None
+    if sc.get("decoy") and cat == r.MessageCategory.NORMAL and not future:
+        # a consumer subscribed to this job's name only; an older message whose name merely starts with it waits in the same
+        # queue: names survive the brokers' key encodings unambiguously, so the consumer receives its own message
+        topics = [sc["name"]]
+    cons = mb.get_consumer(sc["queue"], topics, None, cat)
     await cons.start()
     res = await consume_with_timeout(cons, 5.0)
     if res is None:
